@@ -46,18 +46,18 @@ Section Src.
     = let i := hash (s_mult s) (s_shift s) t in
       mk_store (s_M s) (s_pass s) (s_total s) (s_attempts s) (s_found s) (s_size s) (s_mult s) (s_shift s) (s_length s)
                (N.min (s_min s) i) (N.max (s_max s) i) (s_halv s) (s_N s) (s_buckets s).
-  Proof. destruct s. unfold gen_search. red_store. rewrite !hash_comm. reflexivity. Qed.
+  Proof. destruct s. unfold gen_search. red_store. unfold hash. rewrite ?(N.mul_comm t). reflexivity. Qed.
 
   Lemma id_cond_eq d t s :
     CE d t s (hp_id_cond P) = negb (vget (s_buckets s) (hash (s_mult s) (s_shift s) t) =? sentinel).
-  Proof. destruct s. unfold gen_search. red_store. rewrite !hash_comm. reflexivity. Qed.
+  Proof. destruct s. unfold gen_search. red_store. unfold hash. rewrite ?(N.mul_comm t). reflexivity. Qed.
 
   Lemma id_then_eq d t s : BX d t (hp_id_then P) s = setv s VFound 0.
   Proof. reflexivity. Qed.
 
   Lemma id_post_eq d t s :
     BX d t (hp_id_post P) s = set_buckets s (vset (s_buckets s) (hash (s_mult s) (s_shift s) t) t).
-  Proof. destruct s. unfold gen_search. red_store. rewrite !hash_comm. reflexivity. Qed.
+  Proof. destruct s. unfold gen_search. red_store. unfold hash. rewrite ?(N.mul_comm t). reflexivity. Qed.
 
   (* ---------------------------------------------------------------- the loop over one class's ids *)
   Lemma src_ids d ids : forall s a, s = put s a ->
